@@ -143,6 +143,11 @@ func ExportPrivateKey(keyPath string, passphrase []byte) ([]byte, error) {
 		return nil, fmt.Errorf("failed to create GCM: %w", err)
 	}
 
+	// A truncated or missing nonce would make Open panic
+	if len(data.Nonce) != gcm.NonceSize() {
+		return nil, fmt.Errorf("key file is corrupted: nonce has %d bytes, expected %d", len(data.Nonce), gcm.NonceSize())
+	}
+
 	// Decrypt the private key
 	privKeyBytes, err := gcm.Open(nil, data.Nonce, data.PrivKeyEncrypted, nil)
 	if err != nil {
@@ -347,6 +352,11 @@ func (s *FileSystemSigner) loadKeys(passphrase []byte) error {
 	gcm, err := cipher.NewGCM(block)
 	if err != nil {
 		return fmt.Errorf("failed to create GCM: %w", err)
+	}
+
+	// A truncated or missing nonce would make Open panic
+	if len(data.Nonce) != gcm.NonceSize() {
+		return fmt.Errorf("key file is corrupted: nonce has %d bytes, expected %d", len(data.Nonce), gcm.NonceSize())
 	}
 
 	// Decrypt the private key
